@@ -855,6 +855,22 @@ def _(ix, a):
     return tuple(out)
 
 
+@iop('array_results', A(k=st.integers(1, 2)))
+def _(ix, a):
+    # operations on an index that hand out plain arrays: cumulative functions, matrix product, membership tests that match
+    # nothing / something
+    out = []
+    n = len(ix)
+    if ix.depth > 1:
+        out += [ix.isin([]), ix.isin([tuple('~' for _ in range(ix.depth))]), ix.isin(list(ix)[:1])]
+    else:
+        out += [ix.isin([]), ix.isin(list(ix)[:1])]
+    kinds = {k for k in (ix.dtypes.values if ix.depth > 1 else [ix.values.dtype])}
+    if all(np.dtype(k).kind in 'iuf' for k in kinds) and n:
+        out += [ix.cumsum(), ix.cumprod(), ix @ np.ones((ix.depth if ix.depth > 1 else n, a['k'])), [[1.0] * n for _ in range(a['k'])] @ ix]  # (a list on the left: an ndarray there would make NumPy compute the product itself)
+    return tuple(out)
+
+
 @iop('derive_go_and_grow')
 def _(ix, a):
     if ix.depth > 1:
